@@ -285,6 +285,7 @@ let oracle_run (a : args) trace =
   let nsnap = ref 0 and ncfg = ref 0 and lmax = ref 0 in
   let lineno = ref 0 in
   let fevs : (int, sch_fev list) Hashtbl.t = Hashtbl.create 64 in          (* c -> clears / ExecuteCheck entries, newest first *)
+  let deleted : (int, unit) Hashtbl.t = Hashtbl.create 64 in                (* checkables the driver deleted at some point of the run *)
   let fev_add c e = Hashtbl.replace fevs c (e :: (try Hashtbl.find fevs c with Not_found -> [])) in
   let req_idx : (int * int, int) Hashtbl.t = Hashtbl.create 64 in          (* (c, request time) -> line number of the request marker *)
   let entry_idx : (int * int, int) Hashtbl.t = Hashtbl.create 256 in       (* (c, entry time) -> line number of the X record *)
@@ -303,6 +304,7 @@ let oracle_run (a : args) trace =
   List.iter (fun l ->
     incr lineno;
     match toks_of l with
+    | ["Z"; _; c] -> Hashtbl.replace deleted (int_of_string c) ()
     | ["C"; _; c] -> let c = int_of_string c in fev_add c (SchFClear (z_of_int c))
     | ["R"; t; c; "0"] -> Hashtbl.replace req_idx (int_of_string c, int_of_string t) !lineno
     | "X" :: t :: c :: tid :: _ ->
@@ -396,7 +398,13 @@ let oracle_run (a : args) trace =
       (List.rev !returned);
     (* where force_next_check is cleared: every clear is FOLLOWED by the ExecuteCheck it belongs to (extracted force oracle,
        per checkable, on the complete run: the scheduler thread has been joined and the pool drained) *)
+    (* NOT for checkables that were deleted during the run: the entry of ExecuteCheck is observed through
+       OnLastCheckStartedChanged, and the generated NotifyLastCheckStarted emits only while the object IsActive().  A checkable
+       deactivated between its (forced) dispatch and the moment a pool thread runs the callback executes WITHOUT an entry
+       record (seen: thorough seed 1, c=197, clear at 1.8445 s, deleted at ~1.856 s, command started at 1.8807 s - a false
+       `forced' alarm of the first version of this rule). *)
     Hashtbl.iter (fun c evs ->
+      if Hashtbl.mem deleted c then () else
       match sch_force_oracle [z_of_int c] (List.rev evs) with
       | Some _ -> fail (Printf.sprintf "forced clear-not-followed-by-execution c=%d: force_next_check was set to false and no ExecuteCheck of the checkable was entered afterwards (the consumed request got no dispatch of its own)" c)
       | None -> ()) fevs;
